@@ -180,6 +180,50 @@ impl Prop for C14 {
             let g = gen::generate(&gp);
             picked = inputs::Picked { iref: inputs::input_ref(&format!("gen:{}", serde_json::to_string(&gp).unwrap()), &g.bytes), bytes: g.bytes, recipe: Some(g.recipe) };
         }
+        // the LATEST possible failure: every section and every body is fine, only the whole-module checks of the
+        // validator's end() fail (function section without code section; a data count that disagrees with the
+        // data section).  The callback must not have run.
+        if rng.chance(1, 12) {
+            if let Some(secs) = wasmsplit::split(&picked.bytes) {
+                let b = &picked.bytes;
+                let mut nb: Option<Vec<u8>> = None;
+                let code = secs.iter().find(|s| s.id == 10);
+                let dcount = secs.iter().find(|s| s.id == 12);
+                match (rng.below(3), code, dcount) {
+                    (0, Some(c), _) => {
+                        let mut v = b[..c.range.start].to_vec();
+                        v.extend_from_slice(&b[c.range.end..]);
+                        nb = Some(v);
+                    }
+                    (1, _, Some(d)) => {
+                        if let Some((n, _)) = wasmsplit::read_leb_u32(b, d.payload.start) {
+                            let mut v = b[..d.range.start].to_vec();
+                            let val = wasmsplit::leb_u32(if rng.bool() { n + 1 } else { n.saturating_sub(1) });
+                            v.push(12);
+                            v.extend_from_slice(&wasmsplit::leb_u32(val.len() as u32));
+                            v.extend_from_slice(&val);
+                            v.extend_from_slice(&b[d.range.end..]);
+                            nb = Some(v);
+                        }
+                    }
+                    (_, _, None) => {
+                        // a data count section announcing segments that never come: before the code section if
+                        // there is one, else at the end of the standard sections
+                        let at = secs.iter().position(|s| s.id == 10 || s.id == 11).unwrap_or(secs.iter().rposition(|s| s.id != 0).map(|i| i + 1).unwrap_or(0));
+                        let has_data = secs.iter().any(|s| s.id == 11);
+                        if !has_data {
+                            nb = wasmsplit::insert_section(b, at, &[12, 1, 1 + rng.below(3) as u8]);
+                        }
+                    }
+                    _ => {}
+                }
+                if let Some(v) = nb {
+                    if crate::validator::validate(&v, false).is_err() {
+                        picked = inputs::Picked { iref: inputs::input_ref("late-failure-at-validator-end", &v), bytes: v, recipe: None };
+                    }
+                }
+            }
+        }
         // raw .debug_* sections (arbitrary payloads): they must never leak into the output while DWARF generation is off
         let mut debug_spliced = false;
         if rng.chance(1, 4) {
